@@ -425,6 +425,7 @@ pub fn log(kind: EvKind) {
         return;
     }
     LAST_LOG_STEP.store(rt::STEPS.load(Ordering::SeqCst), Ordering::SeqCst);
+    rt::note_progress();
     let seq = rt::next_seq();
     let now = rt::now_ns().unwrap_or(0);
     let task = rt::current_task_name();
